@@ -86,8 +86,11 @@ func executeCompaction(db *DB) (compactionMetadata *proto.CompactionMetadata, er
 		return nil, err
 	}
 
+	writerClosed := false
 	defer func() {
-		err = errors.Join(err, writer.Close())
+		if !writerClosed {
+			err = errors.Join(err, writer.Close())
+		}
 	}()
 
 	var readers []sstables.SSTableReaderI
@@ -118,6 +121,14 @@ func executeCompaction(db *DB) (compactionMetadata *proto.CompactionMetadata, er
 
 	reduceFunc := sstables.ScanReduceLatestWinsSkipTombstones
 	err = sstables.NewSSTableMerger(db.cmp).MergeCompact(iterators, writer, reduceFunc)
+	if err != nil {
+		return nil, err
+	}
+
+	// the merged table must be complete on disk (buffers flushed, metadata written) before the compaction is
+	// flagged as successful, otherwise a crash could leave a flagged compaction with a truncated table behind
+	writerClosed = true
+	err = writer.Close()
 	if err != nil {
 		return nil, err
 	}
